@@ -301,10 +301,9 @@ fn env_f64() -> f64 {
     f64::from_bits(u64::from_le_bytes(b))
 }
 
-/// Sound over-approximation of `f64::ln` (replaces CBMC's loose built-in model):
-/// any value between the elementary bounds 1 - 1/x <= ln x <= x - 1 (with a 1e-6
-/// relative slack for rounding), sign-correct, exact at 1, and never below
-/// ln(min positive subnormal) ~ -745.2.
+/// Sound over-approximation of `f64::ln` (replaces CBMC's loose built-in model). With x = m * 2^e, m in [1,2), t = m - 1:
+///   e*ln2 + 2t/(2+t)  <=  ln x  <=  e*ln2 + t(6+t)/(6+4t)
+/// with a 1e-9 absolute+relative slack for rounding; sign-correct; exact at 1 and 2. The band is at most 0.034 wide.
 #[cfg(kani)]
 pub fn stub_ln(x: f64) -> f64 {
     if x.is_nan() || x < 0.0 {
@@ -325,14 +324,29 @@ pub fn stub_ln(x: f64) -> f64 {
     let r = env_f64();
     kani::assume(r.is_finite());
     kani::assume(r >= -746.0 && r <= 710.0);
+    let bits = x.to_bits();
+    let exp = ((bits >> 52) & 0x7ff) as i64;
+    if exp == 0 {
+        // subnormal: only the coarse facts
+        kani::assume(r < -708.0);
+        return r;
+    }
+    let e = (exp - 1023) as f64;
+    let m = f64::from_bits((bits & ((1u64 << 52) - 1)) | (1023u64 << 52)); // [1, 2)
+    let t = m - 1.0;
+    // Pade-type bounds, valid for t >= 0: 2t/(2+t) <= ln(1+t) <= t(6+t)/(6+4t)   (band <= 0.034 wide on [0,1))
+    let hi = e * std::f64::consts::LN_2 + t * (6.0 + t) / (6.0 + 4.0 * t);
+    let lo = e * std::f64::consts::LN_2 + 2.0 * t / (2.0 + t);
+    let slack = 1e-9 * (1.0 + if hi < 0.0 { -hi } else { hi });
+    kani::assume(r <= hi + slack);
+    kani::assume(r >= lo - slack);
+    // and the elementary bounds 1 - 1/x <= ln x <= x - 1, which are the tighter ones close to 1
+    kani::assume(r <= (x - 1.0) + 1e-12);
+    kani::assume(r >= (1.0 - 1.0 / x) - 1e-12);
     if x < 1.0 {
         kani::assume(r < 0.0);
-        kani::assume(r <= (x - 1.0) * 0.999999);
-        kani::assume(r >= (1.0 - 1.0 / x) * 1.000001);
     } else {
         kani::assume(r > 0.0);
-        kani::assume(r <= (x - 1.0) * 1.000001);
-        kani::assume(r >= (1.0 - 1.0 / x) * 0.999999);
     }
     r
 }
